@@ -478,6 +478,24 @@ Proof.
 Qed.
 Print Assumptions c11_inlinee_lookup_exact.
 
+(* The inline frames, with the chain given declaratively, for ALL files (overlapping INLINE ranges and
+   duplicate keys included).  When fill_symbol emits inline frames they are [frames_spec] of a chain whose
+   element k, for every k up to and including the lookup that ends the depth loop (k = length chain, where
+   the answer is None), is [giad_check k addr] of THE greatest kept record of the FUNC block at or below
+   (k, addr) in Inlinee's derived order: the record itself when it has depth k and covers addr, else the
+   chain ends.  This replaces the "what the lookup finds" of c11_inline_chain by a description in terms of
+   the records of the file alone. *)
+Theorem c11_inline_chain_exact : forall p rf mbase instr,
+  wf_file rf -> 0 <= mbase -> instr < two64 ->
+  exists st o, build_symtab rf = Ret st /\ symbolize p rf mbase instr = Ret o /\
+    (o_inl o <> [] ->
+     exists fr chain, In fr (rf_funcs rf) /\ func_covers fr (instr - mbase) = true /\
+       (forall k c, (k <= length chain)%nat -> nearest (kept fr) (Z.of_nat k) (instr - mbase) c ->
+                    nth_error chain k = giad_check (Z.of_nat k) (instr - mbase) c) /\
+       o_inl o = frames_spec st chain (rm_get (fn_lines (fin_func true fr)) (instr - mbase))).
+Proof. exact inline_chain_exact. Qed.
+Print Assumptions c11_inline_chain_exact.
+
 (* Duplicate (depth, address) keys: among the non-empty INLINE ranges of the block with the same depth
    and address as the answer, the answer has the greatest (size, call_file, call_line, origin_id). *)
 Theorem c11_inlinee_duplicates : forall fr d x e e',
